@@ -100,8 +100,10 @@ def _deps(fn, s):
 
     def names_of(e):
         out = set()
+        # names bound by a comprehension inside e are local to it (their values come from its iterables, which are inside e too)
+        bound = {t.id for c in ast.walk(e) if isinstance(c, ast.comprehension) for t in ast.walk(c.target) if isinstance(t, ast.Name)}
         for x in ast.walk(e):
-            if isinstance(x, ast.Name) and x.id != s:
+            if isinstance(x, ast.Name) and x.id != s and x.id not in bound:
                 out.add(x.id)
             elif _is_self_attr(x, s):
                 out.add('self.' + x.attr)
@@ -116,7 +118,7 @@ def _deps(fn, s):
                         defs.setdefault(x.id, set()).update(used)
                     elif isinstance(x, ast.Subscript) and isinstance(x.ctx, ast.Store) and isinstance(x.value, ast.Name):
                         defs.setdefault(x.value.id, set()).update(used | names_of(x.slice))
-        elif isinstance(n, (ast.For, ast.comprehension)):
+        elif isinstance(n, ast.For):
             used = names_of(n.iter)
             for x in ast.walk(n.target):
                 if isinstance(x, ast.Name):
@@ -447,6 +449,34 @@ def check_invalidation(model, ci, ma):
                       '%s.%s writes %s, from which %s.%s computes the remembered self.%s' % (ci.name, name, ', '.join(touched), ci.name, ma.meth, ma.attr),
                       resets, '' if resets else 'self.%s is not reset here: after this call %s.%s still returns the value computed before the change'
                       % (ma.attr, ci.name, ma.meth))
+
+
+def cache_as_memo(model, cm):
+    """a cache container seen as a remembered value: its entries were computed from the attributes of self that the caching
+    method (and the methods it calls on self) reads; a later writer of one of those has to empty the container."""
+    from . import parity
+    ma = MemoAttr(cm.ci, cm.name, cm.fn, cm.attr, None)
+    s = cm.fn.args.args[0].arg
+    defs, names_of = _deps(cm.fn, s)
+    for st in cm.stores:
+        v = getattr(st, 'value', None)
+        if v is None:
+            continue
+        for nm in _closure(defs, names_of(v)):
+            if nm.startswith('self.'):
+                a = nm[5:]
+                if a in cm.ci.methods:
+                    for callee in parity.ctor_path(model, cm.ci, a):
+                        o, f2 = model.find_method(cm.ci, callee)
+                        if f2 is not None and f2.args.args:
+                            ma.sources |= attr_reads(f2, f2.args.args[0].arg)
+                else:
+                    ma.sources.add(a)
+    ma.sources.discard(cm.attr)
+    ma.sources -= set(cm.ci.methods)
+    # attributes the caching method itself (re)writes are its own bookkeeping (stamps, scratch), not sources
+    ma.sources -= set(attr_writes(cm.fn, cm.fn.args.args[0].arg))
+    return ma
 
 
 # ---------------------------------------------------------------- module-level caches
